@@ -110,6 +110,27 @@ let join0 sep f l = S.concat sep (L.map f l)
 
 let pinned = ref false
 
+(* the harness does not call GetContainingChunks when the library's own arithmetic predicts a walk over more than
+   2^12 chunks (harness/c09/main.go chunkSpanUnsafe); the same prediction from the model's state *)
+let span_unsafe (es : stsc_entry list) a b : bool =
+  let ai = int_of_n a and bi = int_of_n b in
+  if ai = 0 || bi < ai then false else
+    match stsc_find_entry_for_sample es a N0 with
+    | Ok sen ->
+      (match stsc_find_entry_for_sample es b sen with
+       | Ok een ->
+         (match idx es sen, idx es een with
+          | Ok se, Ok ee ->
+            (match div_go (sub32 a se.first_sample) se.spc, div_go (sub32 b ee.first_sample) ee.spc with
+             | Ok ks, Ok ke ->
+               let m = 4294967296 in
+               let sc = (int_of_n ks + int_of_n se.first_chunk) mod m and ec = (int_of_n ke + int_of_n ee.first_chunk) mod m in
+               ((ec - sc + m) mod m) > 4096
+             | _ -> false)
+          | _ -> false)
+       | _ -> false)
+    | _ -> false
+
 let run_query (tb : tables) (q : string) : string =
   let f = split_on ':' q in
   let a i = n_of_dec (L.nth f i) in
@@ -133,6 +154,9 @@ let run_query (tb : tables) (q : string) : string =
   | "cn" -> res_str (fun (c, s) -> dec_of_n c ^ "/" ^ dec_of_n s) (stsc_chunk_nr_from_sample_nr es (a 1))
   | "gc" -> res_str (fun c -> dec_of_n c.ch_nr ^ "/" ^ dec_of_n c.ch_start ^ "/" ^ dec_of_n c.ch_n)
               (stsc_get_chunk es (a 1))
+  | "cc" when span_unsafe es (a 1) (a 2) -> "unsafe-chunk-span"
+  | "gr" when int_of_n (a 1) >= 1 && int_of_n (a 2) <= int_of_n (stsz_get_nr_samples tb.t_stsz)
+              && span_unsafe es (a 1) (a 2) -> "unsafe-chunk-span"
   | "cc" -> res_str (join ";" (fun c -> dec_of_n c.ch_nr ^ "." ^ dec_of_n c.ch_start ^ "." ^ dec_of_n c.ch_n))
               (stsc_get_containing_chunks es (a 1) (a 2))
   | "sd" -> res_str dec_of_n ((if !pinned then stsc_get_sample_description_id_pinned
